@@ -31,6 +31,7 @@ META["claim"] += " " + 'Round 3b: floods of 1030-5000 pings/pongs without a data
 META["claim"] += " " + 'Round 4: 20 MiB (quick) / up to 300 MiB (thorough) of ordinary messages on one connection with pings strewn in - nothing but the pongs is written; pongs through the dispatcher write path over a transport taking 1-64 bytes per write; ambient conditions drawn per connection.'
 META["claim"] += " " + 'Round 5: the client busy with its own traffic (half-way through sending a fragmented message, own pings and texts) while server pings arrive - the complete written stream is compared.'
 META["claim"] += " " + "Rounds 6-7: server pongs around client pings; the client's own sends refused by the transport before the first byte, key sources bytes / str / default, then pings answered as ever."
+META["claim"] += " " + 'Round 8: one shard under python -b with BytesWarning raised inside the library an error, one shard whose library was imported without the ssl module.'
 
 MODES = [("recv", False), ("recv_data", False), ("recv_data", True), ("recv_data_frame", False), ("recv_data_frame", True)]
 
